@@ -101,6 +101,12 @@ TEMPLATES = [
     ("struct_shadow_more", "struct P3 (px3); g := px3; mk := \\-> (struct P3 (px3, py3, pz3); P3({a}, 6, 7)); [g(P3({a})), try g(mk()) catch e -> \"E\"]", 1),
     ("struct_other_accessor", "struct A1 (u1, u2, u3); struct A2 (w1); [try u3(A2({a})) catch e -> \"E\", try A2({a})[u2] catch e -> \"E\"]", 1),
     ("struct_empty", "struct E0 (); struct A1 (u1); [E0(), try u1(E0()) catch e -> \"E\", try E0({a}) catch e -> \"E\"]", 1),
+    # regular expressions with optional / alternative / named groups that do not take part in the match
+    ("re_search_named", 'search({a}, R"(?P<sign>[-+])?(?P<digits>[0-9a-z]+)|(?P<other>.)")', 1),
+    ("re_search_fixed", 'search("x = 42; y = -7", R"(?P<sign>[-+])?(?P<digits>\\d+)(?P<frac>\\.\\d+)?") $ str({a})', 1),
+    ("re_search_all_opt", 'search_all({a} $ " a1 b22 -3", R"([a-z])?(?P<num>\\d+)(?P<t>x)?")', 1),
+    ("re_replace_fn", 'replace(str({a}) $ " a1 b", R"(?P<w>[a-z])(?P<d>\\d)?", \\m -> "<" $ str(m) $ ">")', 1),
+    ("re_replace_str", 'replace(str({a}), R"(.)(x)?", "$2$1")', 1),
     ("backref", "\\1", 0), ("import_missing", 'import "/nonexistent/x.noul"', 0),
 ]
 OPASSIGN_FUNCS = ["append", "++", "max", "$", "|.", "||", ".+", "-", "*", "//", "%", "^", "&", ">>", "!!", "zip", "**"]
@@ -241,8 +247,15 @@ def run_batch(sh, w, batch, base_vars, tier_key, fuel=None):
             sh.sample({"stmt": text, "outcome": res, "ticks": ev.get("ticks"), "err": ev.get("err")}, cap=3)
     if redo:
         sh.count("confirm:rerun-in-fresh-env", len(redo))
-        evs = core.eval_all(w, [b[0] for b in redo], prelude=pool.PRELUDE, fresh_each=True, fuel=fuel,
-                            observe=observe, probe=PROBES, values=False, touch=True, mem=MEM, jid="c14r")
+        # few statements, and a panic among them pays for symbolising its backtrace (about a second of CPU, more on a
+        # loaded machine): the confirming run gets a generous watchdog so that a real panic is not lost to a timeout
+        saved_budget = w.cpu_budget
+        w.cpu_budget = max(saved_budget, 12.0)
+        try:
+            evs = core.eval_all(w, [b[0] for b in redo], prelude=pool.PRELUDE, fresh_each=True, fuel=fuel,
+                                observe=observe, probe=PROBES, values=False, touch=True, mem=MEM, jid="c14r")
+        finally:
+            w.cpu_budget = saved_budget
         for (text, args, callee), ev in zip(redo, evs):
             sh.seen(text, nontrivial=bool(args))
             res = classify(sh, text, ev, args, base_vars, callee, tier_key)
